@@ -243,3 +243,145 @@ func vpFnv64a(s string) uint64 {
 }
 
 var _ = time.Second
+
+// ---- generic well-formed requests with symbolic fields
+
+type vpGen struct {
+	handles []uint64 // live handle values to choose from
+	names   []string // names to choose from
+	wild    bool     // also allow an arbitrary handle value / arbitrary short name
+	maxData int      // WRITE payload bound
+}
+
+func (g *vpGen) fh(tag string) uint64 {
+	n := len(g.handles)
+	hi := n - 1
+	if g.wild {
+		hi = n
+	}
+	k := vpChoose(tag, 0, hi)
+	if k == n {
+		return vpU64(tag + ".wild")
+	}
+	return g.handles[k]
+}
+
+func (g *vpGen) name(tag string) string {
+	n := len(g.names)
+	hi := n - 1
+	if g.wild {
+		hi = n
+	}
+	k := vpChoose(tag, 0, hi)
+	if k == n {
+		return vpStr(tag+".wild", vpChoose(tag+".wildlen", 1, 2))
+	}
+	return g.names[k]
+}
+
+// sattr draws a sattr3 from a menu of field combinations with symbolic values.
+func (g *vpGen) sattr(tag string) *vpSattr {
+	s := &vpSattr{mode: vpU32(tag + ".mode"), uid: vpU32(tag + ".uid"), gid: vpU32(tag + ".gid"), size: vpU64(tag + ".size")}
+	switch vpChoose(tag+".fields", 0, 5) {
+	case 0:
+	case 1:
+		s.setMode = true
+	case 2:
+		s.setUID, s.setGID = true, true
+	case 3:
+		s.setSize = true
+	case 4:
+		s.setMode, s.setUID, s.setGID, s.setSize = true, true, true, true
+		s.setAtime, s.setMtime = 1, 1
+	case 5:
+		s.setAtime, s.setMtime = 2, 2
+		s.atimeSec, s.mtimeSec = 1_600_000_500, 1_600_000_600
+	}
+	return s
+}
+
+// args builds well-formed arguments for an NFSv3 procedure.
+func (g *vpGen) args(proc uint32) []byte {
+	var b vpBuf
+	switch proc {
+	case NFSPROC3_NULL:
+	case NFSPROC3_GETATTR, NFSPROC3_READLINK, NFSPROC3_FSSTAT, NFSPROC3_FSINFO, NFSPROC3_PATHCONF:
+		b.fh(g.fh("fh"))
+	case NFSPROC3_SETATTR:
+		b.fh(g.fh("fh")).sattr(g.sattr("sattr")).u32(0)
+	case NFSPROC3_LOOKUP, NFSPROC3_REMOVE, NFSPROC3_RMDIR:
+		b.fh(g.fh("fh")).str(g.name("name"))
+	case NFSPROC3_ACCESS:
+		b.fh(g.fh("fh")).u32(vpU32("access"))
+	case NFSPROC3_READ:
+		b.fh(g.fh("fh")).u64(vpU64("offset")).u32(vpU32("count"))
+	case NFSPROC3_WRITE:
+		n := vpChoose("wlen", 0, g.maxData)
+		b.fh(g.fh("fh")).u64(vpU64("offset")).u32(uint32(n)).u32(vpU32("stable")).opaque(vpBytes("wdata", n))
+	case NFSPROC3_CREATE:
+		b.fh(g.fh("fh")).str(g.name("name"))
+		how := vpChoose("how", 0, 2)
+		b.u32(uint32(how))
+		if how == 2 {
+			b.raw(vpBytes("verf", 8))
+		} else {
+			b.sattr(g.sattr("sattr"))
+		}
+	case NFSPROC3_MKDIR:
+		b.fh(g.fh("fh")).str(g.name("name")).sattr(g.sattr("sattr"))
+	case NFSPROC3_SYMLINK:
+		b.fh(g.fh("fh")).str(g.name("name")).sattr(g.sattr("sattr")).str(g.name("target"))
+	case NFSPROC3_MKNOD:
+		b.fh(g.fh("fh")).str(g.name("name")).u32(vpU32("ftype"))
+	case NFSPROC3_RENAME:
+		b.fh(g.fh("fh")).str(g.name("name")).fh(g.fh("fh2")).str(g.name("name2"))
+	case NFSPROC3_LINK:
+		b.fh(g.fh("fh")).fh(g.fh("fh2")).str(g.name("name"))
+	case NFSPROC3_READDIR:
+		b.fh(g.fh("fh")).u64(vpU64("cookie")).raw(vpBytes("cookieverf", 8)).u32(vpU32("count"))
+	case NFSPROC3_READDIRPLUS:
+		b.fh(g.fh("fh")).u64(vpU64("cookie")).raw(vpBytes("cookieverf", 8)).u32(vpU32("dircount")).u32(vpU32("maxcount"))
+	case NFSPROC3_COMMIT:
+		b.fh(g.fh("fh")).u64(vpU64("offset")).u32(vpU32("count"))
+	default:
+		b.raw(vpBytes("unknownargs", 8))
+	}
+	return b.Bytes()
+}
+
+// vpStdTree is the small tree most handler harnesses start from:
+// /d (dir) with x (5-byte file), l (symlink to x); /e (empty dir); /d/new absent.
+func vpStdTree() *vpFS {
+	fs := vpNewFS()
+	fs.addDir("/d")
+	fs.addFileData("/d/x", []byte("hello"))
+	fs.addLink("/d/l", "x")
+	fs.addDir("/e")
+	fs.addAbsent("/d/new")
+	return fs
+}
+
+// vpSnapshot renders the backend state so that "unchanged" is one comparison.
+func (f *vpFS) snapshot() string {
+	var b bytes.Buffer
+	for _, p := range f.order {
+		n := f.nodes[p]
+		if !n.exists {
+			continue
+		}
+		b.WriteString(p)
+		b.WriteByte(':')
+		b.WriteByte('0' + n.kind)
+		b.WriteByte(':')
+		b.WriteString(string(n.data))
+		b.WriteByte(':')
+		b.WriteString(n.target)
+		b.WriteByte(';')
+	}
+	return b.String()
+}
+
+var vpMutatingProcs = map[uint32]bool{
+	NFSPROC3_SETATTR: true, NFSPROC3_WRITE: true, NFSPROC3_CREATE: true, NFSPROC3_MKDIR: true, NFSPROC3_SYMLINK: true, NFSPROC3_MKNOD: true,
+	NFSPROC3_REMOVE: true, NFSPROC3_RMDIR: true, NFSPROC3_RENAME: true, NFSPROC3_LINK: true, NFSPROC3_COMMIT: true,
+}
